@@ -8,7 +8,11 @@
 //
 //	x how they are attached (one call, one call per value, SetHeader+SendHeader,
 //	  stream methods or grpc.SetHeader/SendHeader/SetTrailer(ctx), before or after the responses;
-//	  metadata.NewOutgoingContext or AppendToOutgoingContext)
+//	  metadata.NewOutgoingContext, AppendToOutgoingContext per pair, or the first pair with
+//	  NewOutgoingContext and the rest appended)
+//	x per-RPC credentials {none; a grpc.PerRPCCredentials call option whose metadata has any non-empty
+//	  subset of a small key alphabet (plain and -bin keys) against any subset for the caller's own
+//	  metadata: disjoint, overlapping, nested, identical key sets; keys in lower or upper case} (creds.go)
 //	x RPC kind {unary, client-stream, server-stream, bidi}
 //	x handler outcome {nil, NotFound status}
 //	x {0,1} response messages (server-stream, bidi)
@@ -19,7 +23,8 @@
 //	  HTTP on a recorder with the end-of-body indication held back (streams)}
 //
 // through the real channels and servers (grammar.go, run.go). Oracle (oracle.go):
-// every pair the caller attached is in the handler's incoming metadata, every
+// every pair the caller attached (through the context or through credentials)
+// is in the handler's incoming metadata, every
 // pair the handler set is in Header() / Trailer() and in every option target:
 // all values, in order, bytes exact; other keys are ignored (a transport may
 // add its own). The same oracle is run against grpc-go over bufconn; a
@@ -28,7 +33,8 @@
 // Fingerprints: every violating case is reduced (deterministic greedy
 // minimisation, simplest payload / baseline parameters first) to the simplest
 // member of the grammar showing the same damage, so one root cause gives one
-// fingerprint: C03|transports|kinds|position|payload|damage[|parameters that matter].
+// fingerprint: C03|transports|kinds|position|payload|damage[|parameters that matter]
+// (with credentials in play: ...,creds{the credentials' metadata}).
 //
 // The ordering / interleaving half of C03 belongs to engine E1.
 package main
@@ -61,6 +67,8 @@ type violating struct {
 
 type unitResult struct {
 	evals       int
+	credsEvals  int      // library cases with a grpc.PerRPCCredentials option that reached the handler
+	credsShared []uint64 // ... and a key in both the caller's metadata and the credentials'
 	nontrivial  []uint64
 	viol        []violating
 	refMismatch []string
@@ -80,6 +88,11 @@ func mdKeys(c Case, rs *runState, obs observation) string {
 	var parts []string
 	for _, e := range c.Req {
 		parts = append(parts, fmt.Sprintf("incoming[%s]=%s", e.Key, shorts(rs.incoming[e.Key])))
+	}
+	for _, e := range c.Creds {
+		if len(mdOf(c.Req)[e.Key]) == 0 {
+			parts = append(parts, fmt.Sprintf("incoming[%s]=%s", e.Key, shorts(rs.incoming[e.Key])))
+		}
 	}
 	for k := range rs.hdrSet {
 		if obs.isStream {
@@ -118,8 +131,14 @@ func runUnit(w *worker, u unit, transports []string, sampleAt int) unitResult {
 			pan = rs.panicked
 		}
 		reached := rs.reached
-		nontrivial := reached && (len(c.Req) > 0 || len(rs.hdrSet) > 0 || len(rs.trlSet) > 0)
+		nontrivial := reached && (len(c.Req) > 0 || len(c.Creds) > 0 || len(rs.hdrSet) > 0 || len(rs.trlSet) > 0)
 		rs.mu.Unlock()
+		if !isRef && reached && len(c.Creds) > 0 {
+			r.credsEvals++
+			if len(c.sharedKeys()) > 0 {
+				r.credsShared = append(r.credsShared, keyHash(c.key()))
+			}
+		}
 		if isRef {
 			if len(fs) > 0 || pan != "" || !reached {
 				r.refMismatch = append(r.refMismatch, describe(c, rs, obs, fs)+" "+pan)
@@ -221,11 +240,17 @@ func main() {
 	if thorough {
 		maxLen, multiAll, tripleSet = 3, true, 6
 	}
-	us := units(maxLen, multiAll, tripleSet)
+	if err := selfTestOracle(); err != nil {
+		inconclusive("self-test: %v", err)
+	}
+	us := units(maxLen, multiAll, tripleSet, thorough)
 	// the reference transport: thorough = every unit; quick = the one- and two-value one-key maps in the base modes, the five-key maps
 	refFor := func(u unit) bool {
 		if thorough {
 			return true
+		}
+		if u.Part == "creds" {
+			return true // the merge of credentials and caller metadata: always against the reference
 		}
 		base := u.ReqMode == baseReqMode && u.HdrMode == baseHdrMode && u.TrlMode == baseTrlMode
 		n := len(u.Req) + len(u.Hdr) + len(u.Trl)
@@ -283,8 +308,14 @@ func main() {
 	var refMismatch, unreached []string
 	perPart := map[string]int{}
 	var viol []violating
+	credsEvals := 0
+	credsShared := map[uint64]struct{}{}
 	for i, r := range results {
 		evals += r.evals
+		credsEvals += r.credsEvals
+		for _, h := range r.credsShared {
+			credsShared[h] = struct{}{}
+		}
 		perPart[us[i].Part] += r.evals
 		for _, h := range r.nontrivial {
 			distinct[h] = struct{}{}
@@ -335,6 +366,9 @@ func main() {
 				continue
 			}
 			target := v.els[pos]
+			if pos == "request" && len(v.c.Creds) > 0 {
+				target = coarsenRequest(target)
+			}
 			m, reproducible := mz.minimise(v.c, pos, target)
 			if !reproducible {
 				// the violation did not show again when the case was run again: timing-dependent. One
@@ -398,22 +432,27 @@ func main() {
 		"cooperative schedule only: one linear client script per case (send, CloseSend, [Header], Recv..., [Header], Trailer); orders and interleavings are the E1 part of C03",
 		"keys are valid gRPC keys outside the transports' reserved namespaces (grpc-, x-grpc-, HTTP framing headers); ASCII values have no leading/trailing blank (the gRPC spec lets transports strip those)",
 		"per application key the observed value list must equal the list that was set (all values, order, bytes); keys the application did not set are ignored; grpc-go over bufconn satisfies this oracle on the same cases (checked in this run)",
+		"per-RPC credentials (grpc.PerRPCCredentials call option; a static map, RequireTransportSecurity false, one option per call) count as metadata the caller attaches: under a key the credentials also produce the handler must see the caller's values in the caller's order with the credentials' value inserted once at any position (grpc-go puts it first, grpchan last; the statement fixes neither), under a key only the credentials produce exactly their value; keys compared in lower case. The credentials dimension is crossed with kind x outcome x transport x attach mode (part creds, narrow expansion) and swept around one-key bases for nresp x Header() position x option count with header and trailer maps present (part creds-sweep); it is not crossed with the value-list grammar of the one-key part (values rotate through the alphabets instead)",
 		"the hang guard (30 s without progress) uses the wall clock; nothing else does",
 	}
 	os.Exit(rep.Finish("exploration", map[string]interface{}{
-		"evaluations":                    evals,
-		"evaluations_per_part":           perPart,
-		"units":                          len(us),
-		"distinct_nontrivial":            len(distinct),
-		"violating_cases":                len(viol),
-		"minimiser_runs":                 mz.runs,
-		"not_reproducible":               unstable,
-		"flaky_minimiser_verdicts":       mz.flaky,
-		"gate_timed_out":                 gateTimedOut.Load(),
-		"rule":                           "a case (transport, kind, outcome, nresp, Header() position, option count, three maps with their attach modes) is non-trivial when the real handler was reached and at least one application pair was in play (caller attached request metadata, or a SetHeader/SendHeader/SetTrailer call of the handler returned nil), i.e. the metadata copy / encode / fan-out path ran; distinct by all case parameters (FNV-64 of the case key); reference-transport (grpc-go) runs are counted in evaluations but not here",
-		"samples":                        samples,
-		"exhaustive":                     true,
-		"grammar":                        fmt.Sprintf("one-key maps: 5 keys x value lists of length 1..%d over 5 values x all attach modes x 3 positions; two-key maps: 10 key pairs x 25 value pairs and 5 five-key maps x attach modes (all=%v) x 3 positions; %d^3 three-position triples; each x 4 kinds x ok/fail x nresp x Header() position x 0..2 options x 5 transports (inproc, http-rec, http-wire, http-net; http-gate for the stream kinds)", maxLen, multiAll, tripleSet),
+		"evaluations":                     evals,
+		"evaluations_per_part":            perPart,
+		"units":                           len(us),
+		"distinct_nontrivial":             len(distinct),
+		"violating_cases":                 len(viol),
+		"minimiser_runs":                  mz.runs,
+		"not_reproducible":                unstable,
+		"flaky_minimiser_verdicts":        mz.flaky,
+		"gate_timed_out":                  gateTimedOut.Load(),
+		"rule":                            "a case (transport, kind, outcome, nresp, Header() position, option count, three maps with their attach modes, credentials map with its key spelling) is non-trivial when the real handler was reached and at least one application pair was in play (caller attached request metadata or passed per-RPC credentials, or a SetHeader/SendHeader/SetTrailer call of the handler returned nil), i.e. the metadata copy / merge / encode / fan-out path ran; distinct by all case parameters (FNV-64 of the case key); reference-transport (grpc-go) runs are counted in evaluations but not here. credentials_cases_reached: library cases with a grpc.PerRPCCredentials option whose handler ran; credentials_distinct_shared_key: the distinct ones among them in which the caller's metadata and the credentials have at least one key in common (the merge had to keep both sides' values under one key)",
+		"credentials_cases_reached":       credsEvals,
+		"credentials_distinct_shared_key": len(credsShared),
+		"samples":                         samples,
+		"exhaustive":                      true,
+		"grammar": fmt.Sprintf("one-key maps: 5 keys x value lists of length 1..%d over 5 values x all attach modes (request: NewOutgoingContext, AppendToOutgoingContext per pair, first pair New + rest appended) x 3 positions; two-key maps: 10 key pairs x 25 value pairs and 5 five-key maps x attach modes (all=%v) x 3 positions; %d^3 three-position triples; each x 4 kinds x ok/fail x nresp x Header() position x 0..2 options x 5 transports (inproc, http-rec, http-wire, http-net; http-gate for the stream kinds). "+
+			"Per-RPC credentials (part creds): every pair (caller key set S, credentials key set T non-empty) of subsets of the key alphabet %v (disjoint, overlapping, nested, identical; S empty = credentials alone) x 1..%d caller values per key x %d value schemes (rotations of the value alphabets with the credentials' value different from all the caller's for the key, and one where it repeats the caller's first value) x every request attach mode x credentials' keys in lower / upper case x 4 kinds x ok/fail x 5 transports; (part creds-sweep): none or one caller key (two values) x one credentials key over the same alphabet x every request attach mode, with a header and a trailer map set, x the full expansion (nresp x Header() position x 0..2 options). No credentials = all other parts",
+			maxLen, multiAll, tripleSet, credsKeyAlpha(thorough), map[bool]int{false: 2, true: 3}[thorough], map[bool]int{false: 3, true: 6}[thorough]),
 		"reference_validated_on_grpc_go": true,
 	}, assumptions))
 }
